@@ -63,6 +63,9 @@ def cpu_ticks(pid):
     try: f = open('/proc/%d/stat' % pid).read().rsplit(')', 1)[1].split(); return int(f[11]) + int(f[12])
     except (OSError, IndexError, ValueError): return 0
 
+class Lost(Exception):
+    """the executor could not even load the library (e.g. another check is rebuilding the cache right now): harness trouble, never a verdict"""
+
 class Monitor:
     """per-executor oracle: CK_RV validity, UBSan diagnostics attributed to the call that produced them"""
     def __init__(s, x, ck, part): s.x = x; s.ck = ck; s.part = part; s.pos = 0; s.reqs = []
@@ -76,7 +79,9 @@ class Monitor:
         one that is idle is stuck; only the latter is the hang the property is about"""
         x = s.x; x.n += 1; req = dict(req); req.setdefault('id', x.n); x.calls += 1
         def died(note=None):
-            rc = x.p.wait(); e = Died(note, rc, x.stderr_tail(), req.get('fn')); e.stderr_path = x.stderr_path; return e
+            rc = x.p.wait(); e = Died(note, rc, x.stderr_tail(), req.get('fn')); e.stderr_path = x.stderr_path
+            if note is None and rc == 2 and ('dlopen:' in (e.stderr_tail or '') or 'no function list' in (e.stderr_tail or '')): return Lost((e.stderr_tail or '')[-200:])
+            return e
         try: x.p.stdin.write((json.dumps(req) + '\n').encode())
         except (BrokenPipeError, OSError): raise died()
         fd = x.p.stdout.fileno(); t0 = time.time()
@@ -900,16 +905,41 @@ def mutate_dir(r, d, toks, be):
     open(os.path.join(d, 'tokens', 'stray-file'), 'wb').write(b'x'); return 'stray-file-in-tokendir'
 
 # ------------------------------------------------------------------------------------------------ driver
+def merge_part(dst, src):
+    dst.evaluations += src.evaluations; dst.distinct |= src.distinct; dst.inconclusive += src.inconclusive
+    for x in src.samples:
+        if len(dst.samples) < 3: dst.samples.append(x)
+    for k, v in src.viol.items(): dst.viol.setdefault(k, v)
+    for k, v in src.counters.items(): dst.counters[k] = dst.counters.get(k, 0) + v
+    for name, o in src.obs.items():
+        t = dst.obs.setdefault(name, {'count': 0, 'examples': []}); t['count'] += o['count']
+        for e in o['examples']:
+            if len(t['examples']) < 10 and e not in t['examples']: t['examples'].append(e)
+
+def run_item(job, env, item):
+    p = Part()
+    if job['mode'] == 'grid':
+        fam, lo, hi = item; run_cells(env, fam, grid_cells(fam, env['ck'], env['seed'], env['scale'])[lo:hi], p)
+    elif job['mode'] == 'api': run_sequence(env, item, p)
+    else: file_case(env, item, p)
+    return p
+
 def worker(job):
     part = Part(); env = dict(job['env']); env['ck'] = CK(env['hdr']); env['scratch'] = os.path.join(env['scratch'], 'w%d' % os.getpid()); os.makedirs(env['scratch'], exist_ok=True)
     for item in job['items']:
-        t0 = time.time()
-        try:
-            if job['mode'] == 'grid':
-                fam, lo, hi = item; cells = grid_cells(fam, env['ck'], env['seed'], env['scale'])[lo:hi]; run_cells(env, fam, cells, part)
-            elif job['mode'] == 'api': run_sequence(env, item, part)
-            else: file_case(env, item, part)
-        except (Died, Hang) as e: part.inconc('executor lost outside a monitored call: %r' % (e,))
+        t0 = time.time(); p = None
+        for attempt in (0, 1):
+            try:
+                p = run_item(job, env, item)
+                # a sanitizer death whose stack could not be symbolised (library being rewritten, symboliser starved) has no stable key: run the case again
+                if attempt == 0 and any(k.endswith('@?') and '|asan:' in k for k in p.viol): p = None; continue
+                break
+            except Lost as e:
+                p = None; import subprocess
+                subprocess.run([sys.executable, f'{VERIF}/tools/build.py', env['cfg']], stdout=subprocess.DEVNULL, stderr=subprocess.DEVNULL)   # blocks on the build lock until the cache is whole again
+                if attempt == 1: part.inconc('executor could not load the library: %s' % e)
+            except (Died, Hang) as e: part.inconc('executor lost outside a monitored call: %r' % (e,)); break
+        if p is not None: merge_part(part, p)
         part.count('worker_s:' + (job['mode'] if job['mode'] != 'grid' else 'grid:' + item[0]), round(time.time() - t0, 2))
     return part
 
